@@ -4,7 +4,7 @@ from common import *
 
 ENG = os.path.join(VERIF, "engines", "simxl")
 SIMCORE = os.path.join(VERIF, "simcore")
-WRAP_XL = ("exit fopen fclose fread remove unlink unlinkat rename renameat open openat creat mkdir rmdir truncate ftruncate link symlink chdir "
+WRAP_XL = ("exit fopen fclose fread fwrite remove unlink unlinkat rename renameat open openat creat mkdir rmdir truncate ftruncate link symlink chdir "
            "freopen tmpfile system popen sysconf").split()
 
 VARIANTS = {
